@@ -65,7 +65,8 @@ private:
 
 inline const char* Tokenizer::convChar2String( char c)
 {
-   static char  s[ 2] = { 0, 0 };
+   // one buffer per thread: tokenizers may be created concurrently
+   static thread_local char  s[ 2] = { 0, 0 };
    s[ 0] = c;
    return s;
 } // Tokenizer::convChar2String
